@@ -424,8 +424,11 @@ func TestC01(t *testing.T) {
 	// ---- A'. batches of concurrent calls separated by gaps of virtual time (6 s, 1 min, 1 h): every caller issues one
 	// call, everything runs to completion, the clock advances while the connection is idle, then the next batch.
 	// Whatever a timer does to an idle connection (retiring workers, expiring registrations) shows in the next batch.
-	type gapCfg struct{ k, per, tick, topo int }
-	gaps := []gapCfg{{8, 2, -5, 0}, {9, 2, -5, 0}, {8, 3, -6, 0}, {3, 4, -5, 0}, {8, 2, -7, 2}, {2, 3, -5, 1}}
+	// inner: the clock also advances INSIDE a batch, when every request has been delivered and no handler has returned yet
+	// (a ninth request is then waiting for a worker): 100 ms, 300 ms, 6 s
+	type gapCfg struct{ k, per, tick, topo, inner int }
+	gaps := []gapCfg{{8, 2, -5, 0, 0}, {9, 2, -5, 0, 0}, {8, 3, -6, 0, 0}, {3, 4, -5, 0, 0}, {8, 2, -7, 2, 0}, {2, 3, -5, 1, 0},
+		{9, 2, -5, 0, -9}, {9, 2, -5, 0, -10}, {10, 1, -5, 0, -5}, {9, 1, -6, 2, -10}, {12, 1, -5, 0, -10}}
 	for gi, g := range gaps {
 		cfg := c01Cfg{topo: g.topo, byRef: gi%2 == 1, k: g.k, per: g.per}
 		rng := newRand(int64(77000 + gi))
@@ -435,13 +438,15 @@ func TestC01(t *testing.T) {
 				progs[i] = append(progs[i], syCop{Op: "invoke", Pay: syBytes(rng, syPickSize(rng)), M: i + x, Plain: (i+gi)%2 == 0})
 			}
 		}
-		issued, ticked := 0, false
+		issued, ticked, innerDone := 0, false, false
 		steps, complete, _ := runC01Lock(t, cfg, progs, func(step int, en []syAct) int {
 			// all the requests of a batch reach the server before any handler returns (8 workers busy at once)
 			nonU := -1
+			hasC := false
 			for i, a := range en {
 				if a.K == 'C' {
 					nonU = i
+					hasC = true
 					break
 				}
 				if a.K != 'U' && nonU < 0 {
@@ -452,6 +457,10 @@ func TestC01(t *testing.T) {
 				issued++
 				return 0
 			}
+			if g.inner != 0 && !innerDone && !hasC && nonU >= 0 && en[nonU].K == 'H' {
+				innerDone = true
+				return g.inner // every request is at the server, no handler has returned: the clock advances
+			}
 			if nonU >= 0 {
 				return nonU
 			}
@@ -460,7 +469,7 @@ func TestC01(t *testing.T) {
 				ticked = true
 				return g.tick
 			}
-			issued, ticked = 1, false
+			issued, ticked, innerDone = 1, false, false
 			return 0
 		})
 		rec := recC01("c01-gaps", cfg, map[string]any{"gap_ms": map[int]int{-5: 6000, -6: 60000, -7: 3600000}[g.tick], "schedule": sySchedString(steps)}, steps, complete, "mode:batches-and-gaps")
